@@ -224,7 +224,10 @@ def gen_plan(rng, tier, i, seed):
             r["noqual"] = False
     return {"world": world, "reads": reads, "hashseed": rng.choice([0, 1, 2]),
             "shuffle": rng.randint(0, 10**6), "deliveries": DELIVERIES,
-            "error_at": rng.choice([0, 3, 40, 90, 10**6]), "error_kind": rng.choice(["OSError", "ValueError"])}
+            "error_at": rng.choice([0, 3, 40, 90, 10**6]), "error_kind": rng.choice(["OSError", "ValueError"]),
+            # history: the same process loaded a sample of ANOTHER database with the same gene name and build a
+            # moment ago (another release of the gene file, a patched copy): nothing of it may linger
+            "prior_world_seed": rng.randint(0, 10**6) if rng.random() < 0.35 else None}
 
 
 def execute(plan, runner, rundir):
@@ -546,6 +549,16 @@ def run_segment(seg):
     rd = seg["rundir"]
     os.makedirs(rd, exist_ok=True)
     os.chdir(rd)
+    if plan.get("prior_world_seed") is not None:
+        prng = random.Random(f"C06:prior:{plan['prior_world_seed']}")
+        pw = WL.one_gene_world(prng, small=True, kinds=["snp", "mnp", "snp"], n_variants=5, lfusion=False, rfusion=False)
+        pdir = os.path.join(rd, "prior")
+        os.makedirs(pdir, exist_ok=True)
+        W.materialise_db(pw, pdir)
+        pg = Gene(os.path.join(pdir, pw["genes"][0]["name"].lower() + ".yml"), genome="hg19")
+        W.write_bam(os.path.join(pdir, "p.bam"), pw, W.sample_reads(pw, W.reference_sample(pw)))
+        Sample(pg, Profile("user_provided", cn_solution=["1", "1"]), os.path.join(pdir, "p.bam"))
+        SIM.fire("prior_sample_of_same_gene_name")
     W.materialise_db(world, rd)
     g = world["genes"][0]
     gene = Gene(os.path.join(rd, g["name"].lower() + ".yml"), genome="hg19")
